@@ -284,7 +284,17 @@ def run(report):
             report.failure("c11-unindent-%s" % kk, "unindent(%r): %s" % (t, json.dumps(r)[:200]), {"op": "unindent", "src": t, "answer": r})
         elif r.get("text") != m.get("text"):
             report.failure("c11-unindent-model", "Lean unindent model and unindent.rs disagree", {"correspondence": "unindent (vlib/c11.py S1)", "op": "unindent", "src": t, "impl": r, "model": m}, no_input=True)
-    stats["s1_unindent_texts"] = len(texts)
+    # the same with carriage returns (files with CRLF line ends)
+    texts_cr = list(G.exhaustive([" ", "a", "\r\n", "\n", "\t", "\r"], 5 if tier == "quick" else 6))
+    res = jv.pbatch([{"op": "unindent", "src": t} for t in texts_cr], chunk=20000)
+    mres = dr.pbatch([{"op": "unindent", "src": t} for t in texts_cr], chunk=20000)
+    for t, r, m in zip(texts_cr, res, mres):
+        kk = classify_jv(r)
+        if kk:
+            report.failure("c11-unindent-%s" % kk, "unindent(%r): %s" % (t, json.dumps(r)[:200]), {"op": "unindent", "src": t, "answer": r})
+        elif r.get("text") != m.get("text"):
+            report.failure("c11-unindent-model", "Lean unindent model and unindent.rs disagree", {"correspondence": "unindent (vlib/c11.py S1)", "op": "unindent", "src": t, "impl": r, "model": m}, no_input=True)
+    stats["s1_unindent_texts"] = len(texts) + len(texts_cr)
 
     # string literal cooking: escape sequences, unicode escapes, indented strings (model vs parser)
     COOK = ["a", "\\", "n", "t", "r", "\"", "u", "{", "}", "0", "1", "F", "f", "g", "D", "8", "\n", " ", "\u00e9", "'", "\r\n"]
